@@ -136,6 +136,22 @@ def c01(ck):
     ck.trace_stage("soups", args, "Trace_Calls", "Trace_Calls.cfg", heap="6g", timeout=3400, split=8, boundary="Call")
 
 
+def c02(ck):
+    ck.rule = ("every registered filter (48 stdlib + 8 jekyll / shopify / extra) x every input of a 45-value type-confused pool (nil, "
+               "booleans, integers incl. the i64 limits and +-10^4, floats incl. .5 ties, 2^63, inf, nan, strings empty / blank / "
+               "non-ASCII / combining / emoji / numeric / format-like / html, arrays of 0..40 mixed elements, arrays of objects, objects "
+               "incl. one with its own 'size' key) x every argument tuple: arity 0, arity 1 over the whole pool, arity 2 over a 12-value "
+               "(quick) or the whole (thorough) pool; 46 tag / block sources with edge arguments (tablerow cols 0 / 1 / -1 / MAX, cycle "
+               "without values, limit / offset / range bounds from the pool, counters next to assigned non-integers, partial names of the "
+               "wrong type); all cases are non-trivial")
+    ck.assumptions = ["the harness is built with debug assertions and overflow checks, so arithmetic that would wrap in a release build panics here and is recorded",
+                      "for filters without a functional specification the table contributes the enumerated space and the outcome class "
+                      "(arity outside the signature = rejected; inside = returns a value or an error, valid UTF-8), not the value",
+                      "tags and blocks are also exercised by every corpus of C03 - C10"]
+    ck.replay_stage("filters+edges", "MC_C02", "MC_C02_quick.cfg" if ck.tier == "quick" else "MC_C02_thorough.cfg",
+                    tlc_workers=10, harness_workers=8, timeout=3400)
+
+
 def c03(ck):
     ck.rule = ("text-markup-text triples: left/right text = core x whitespace run (all runs up to the bound over {space, tab, LF, CR}; "
                "cores '', a, e-acute, }, %, quote, emoji) around an output tag or an assign tag with each of the 4 trim-marker "
@@ -274,7 +290,7 @@ def c20(ck):
     ck.trace_stage("realthreads", ["threads", "--runs", runs], "Trace_Threads", "Trace_Threads.cfg", heap="8g", timeout=3000)
 
 
-PROPS = {"C01": c01, "C03": c03, "C04": c04, "C06": c06, "C07": c07, "C08": c08, "C09": c09, "C10": c10, "C11": c11, "C12": c12, "C13": c13, "C14": c14, "C15": c15, "C16": c16, "C17": c17, "C19": c19, "C20": c20, "C05": c05, "C18": c18}
+PROPS = {"C01": c01, "C02": c02, "C03": c03, "C04": c04, "C06": c06, "C07": c07, "C08": c08, "C09": c09, "C10": c10, "C11": c11, "C12": c12, "C13": c13, "C14": c14, "C15": c15, "C16": c16, "C17": c17, "C19": c19, "C20": c20, "C05": c05, "C18": c18}
 
 
 def replay_file(prop, path):
